@@ -44,6 +44,20 @@ def make_iter(E, it, node):
             return Iter(items=[(i, x) for i, x in enumerate(inner.items)])
         return Iter(count=inner.count, elem=lambda k: (Z(k, INT) if not isinstance(k, int) else k, inner.elem(k)),
                     deps=inner.deps)
+    if isinstance(it, tuple) and it and it[0] == 'zip' and len(it) == 2 and isinstance(it[1], tuple) and len(it[1]) == 2 \
+            and it[1][0] == '*':
+        # zip(*rows): the columns of a list of equally long lists
+        from . import grid as _grid
+        g = it[1][1]
+        if _grid.is_grid(g) and g.lead == 2 and len(g.shape) == 2:
+            n0, n1 = g.shape
+            n0t = n0 if not isinstance(n0, int) else z3.IntVal(n0)
+            n1t = n1 if not isinstance(n1, int) else z3.IntVal(n1)
+            # (zip over zero rows yields nothing)
+            cnt = z3.simplify(z3.If(n0t > 0, n1t, z3.IntVal(0)))
+            return Iter(count=cnt, elem=lambda j: _grid.grid(E, (n0,), 1, (lambda i, j=j: E.st.heap[g.ident](i, j)), 'tuple',
+                                                             owner=_grid.owner_of(g)), deps=(g.ident,))
+        raise Unsupported('zip(*%r)' % (g,))
     if isinstance(it, tuple) and it and it[0] == 'zip':
         inners = [make_iter(E, x, node) for x in it[1:]]
         if all(i.items is not None for i in inners):
@@ -333,7 +347,15 @@ def eval_comprehension(E, n):
             finally:
                 E.st.env = old_env
                 E.spec_mode -= 1
-        probe = _norm_elem(at(z3.Int(fresh_name('probe')), n.elt))
+        from . import grid as _grid
+        probe0 = at(z3.Int(fresh_name('probe')), n.elt)
+        if _grid.is_grid(probe0) and probe0.lead == 1 and not gen.ifs:
+            # a list of lists of opaque values: entry [i][j] = (element i of the comprehension)[j]
+            def cell(i, j):
+                g = at(i, n.elt)
+                return E.st.heap[g.ident](j)
+            return _grid.grid(E, (N, probe0.shape[0]), 2, cell, 'list')
+        probe = _norm_elem(probe0)
         ty = _elem_type(probe)
         values = E.new_arr(N, ty, lambda i: _norm_elem(at(i, n.elt)), 'list')
         if not gen.ifs:
